@@ -99,10 +99,16 @@ class ClassUtils:
         """
         target.extensions.remove(extension)
         target_attr_names = {attr.name for attr in target.attrs}
+        # A xml attribute named `value` doesn't override the text value
+        attribute_names = {attr.name for attr in target.attrs if attr.is_attribute}
+        if any(attr.xml_type is None for attr in target.attrs):
+            attribute_names.clear()
 
         index = 0
         for attr in source.attrs:
-            if attr.name not in target_attr_names:
+            if attr.name not in target_attr_names or (
+                attr.xml_type is None and attr.name in attribute_names
+            ):
                 clone = cls.clone_attribute(attr, extension.restrictions)
                 cls.copy_inner_classes(source, target, clone)
 
